@@ -815,6 +815,11 @@ func (s *State) step(instr ssa.Instruction) {
 		if c.cellsMode && a.Space == "elem" && len(a.Path) == 0 {
 			s.cellsStoreCheck(x, a.Ref, a.Elem)
 		}
+		if c.provMode && a.Space == "elem" && len(a.Path) == 0 {
+			// a list built around a JSON value belongs to that value's document (definition of the ghost for the
+			// fresh list; the closed-world scan "anylist" confines such stores to object.GetList's singleton)
+			s.provenanceFacts(a.Ref, v)
+		}
 		s.storeAddr(a, v)
 	case *ssa.BinOp:
 		s.env[x] = s.binop(x)
